@@ -204,6 +204,52 @@ pub open spec fn planar_image(input: Seq<u8>, w: nat, h: nat) -> Option<Seq<u8>>
         Some(planes) => Some(Seq::new(w * h * 4, |k: int| planar_pixel(planes, w, h, k))),
     }
 }
+/// effect on the whole buffer of decoding one plane into the sub-slice starting at byte `off`
+pub open spec fn plane_written(o0: Seq<u8>, o1: Seq<u8>, off: int, lines: Seq<Seq<u8>>, w: int, h: int) -> bool {
+    &&& o1.len() == o0.len()
+    &&& forall|k: int| 0 <= k < o0.len() && (k < off || (k - off) % 4 != 0 || k >= off + w * h * 4) ==> #[trigger] o1[k] == o0[k]
+    &&& forall|i: int, j: int| 0 <= i < h && 0 <= j < w ==> o1[off + ((h - 1 - i) * w + j) * 4] == #[trigger] lines[i][j]
+}
+/// from the sub-slice view (what the contract of process_plane says about `&mut output[off..]`) to the whole buffer
+pub proof fn lemma_plane_written(o0: Seq<u8>, o1: Seq<u8>, off: int, lines: Seq<Seq<u8>>, w: int, h: int)
+    requires 0 <= off <= o0.len(), o1.len() == o0.len(), w >= 0, h >= 0, w * h * 4 <= o0.len() - off + 3,
+        forall|k: int| 0 <= k < off ==> #[trigger] o1[k] == o0[k],
+        forall|k: int| 0 <= k < o0.len() - off && k % 4 != 0 ==> #[trigger] o1.subrange(off, o1.len() as int)[k] == o0.subrange(off, o0.len() as int)[k],
+        forall|k: int| w * h * 4 <= k < o0.len() - off ==> #[trigger] o1.subrange(off, o1.len() as int)[k] == o0.subrange(off, o0.len() as int)[k],
+        forall|i: int, j: int| 0 <= i < h && 0 <= j < w ==> o1.subrange(off, o1.len() as int)[((h - 1 - i) * w + j) * 4] == #[trigger] lines[i][j],
+    ensures plane_written(o0, o1, off, lines, w, h)
+{
+    let sub0 = o0.subrange(off, o0.len() as int); let sub1 = o1.subrange(off, o1.len() as int);
+    assert forall|k: int| 0 <= k < o0.len() && (k < off || (k - off) % 4 != 0 || k >= off + w * h * 4) implies #[trigger] o1[k] == o0[k] by {
+        if k >= off { assert(sub1[k - off] == sub0[k - off]); }
+    }
+    assert forall|i: int, j: int| 0 <= i < h && 0 <= j < w implies o1[off + ((h - 1 - i) * w + j) * 4] == #[trigger] lines[i][j] by {
+        lemma_mul_lt(h - 1 - i, w, j, h);
+        assert(sub1[((h - 1 - i) * w + j) * 4] == lines[i][j]);
+    }
+}
+#[verifier::spinoff_prover]
+pub proof fn lemma_four_planes(o0: Seq<u8>, o1: Seq<u8>, o2: Seq<u8>, o3: Seq<u8>, o4: Seq<u8>, pa: Seq<Seq<u8>>, pr: Seq<Seq<u8>>, pg: Seq<Seq<u8>>, pb: Seq<Seq<u8>>, w: int, h: int)
+    requires w > 0, h > 0, w * h * 4 <= o0.len(),
+        plane_written(o0, o1, 3, pa, w, h), plane_written(o1, o2, 2, pr, w, h), plane_written(o2, o3, 1, pg, w, h), plane_written(o3, o4, 0, pb, w, h)
+    ensures
+        forall|k: int| 0 <= k < w * h * 4 ==> #[trigger] o4[k] == planar_pixel(seq![pb, pg, pr, pa], w as nat, h as nat, k),
+        forall|k: int| w * h * 4 <= k < o0.len() ==> #[trigger] o4[k] == o0[k],
+{
+    let planes = seq![pb, pg, pr, pa];
+    assert forall|k: int| 0 <= k < w * h * 4 implies #[trigger] o4[k] == planar_pixel(planes, w as nat, h as nat, k) by {
+        lemma_pixel_index(w, h, k);
+        let p = k / 4; let i = h - 1 - p / w; let j = p % w;
+        assert(k == k % 4 + ((h - 1 - i) * w + j) * 4);
+        if k % 4 == 3 { assert(o1[3 + ((h - 1 - i) * w + j) * 4] == pa[i][j]); assert(o2[k] == o1[k]); assert(o3[k] == o2[k]); assert(o4[k] == o3[k]); }
+        else if k % 4 == 2 { assert(o2[2 + ((h - 1 - i) * w + j) * 4] == pr[i][j]); assert(o3[k] == o2[k]); assert(o4[k] == o3[k]); }
+        else if k % 4 == 1 { assert(o3[1 + ((h - 1 - i) * w + j) * 4] == pg[i][j]); assert(o4[k] == o3[k]); }
+        else { assert(o4[0 + ((h - 1 - i) * w + j) * 4] == pb[i][j]); }
+    }
+    assert forall|k: int| w * h * 4 <= k < o0.len() implies #[trigger] o4[k] == o0[k] by {
+        assert(o1[k] == o0[k]); assert(o2[k] == o1[k]); assert(o3[k] == o2[k]); assert(o4[k] == o3[k]);
+    }
+}
 pub proof fn lemma_pixel_index(w: int, h: int, k: int)
     requires 0 <= k < w * h * 4, w > 0, h > 0
     ensures ({ let p = k / 4; let row = p / w; let col = p % w;
@@ -342,29 +388,43 @@ UNIT = Unit("codec", ["base.rs"], [
 let ghost w = width as nat; let ghost h = height as nat; let ghost n4 = width as int * height as int * 4;
 let ghost s0 = input_cursor.rest(); let ghost o0 = output@;
 proof { assert(s0 =~= input@.skip(1)); }""", "before"),
-              (r"process_plane\(&mut input_cursor, width, height, &mut output\[3\.\.\]\)", 1, "let ghost s1 = input_cursor.rest(); let ghost o1 = output@;"),
-              (r"process_plane\(&mut input_cursor, width, height, &mut output\[2\.\.\]\)", 1, "let ghost s2 = input_cursor.rest(); let ghost o2 = output@;"),
-              (r"process_plane\(&mut input_cursor, width, height, &mut output\[1\.\.\]\)", 1, "let ghost s3 = input_cursor.rest(); let ghost o3 = output@;"),
-              (r"process_plane\(&mut input_cursor, width, height, &mut output\[0\.\.\]\)", 1, """proof {
+              (r"process_plane\(&mut input_cursor, width, height, &mut output\[3\.\.\]\)", 1, """let ghost s1 = input_cursor.rest(); let ghost o1 = output@;
+proof { let sub0 = o0.subrange(3, o0.len() as int); let sub1 = o1.subrange(3, o1.len() as int); let pl = decode_plane(s0, w, h)->Some_0.0;
+    assert(forall|k: int| 0 <= k < sub0.len() && k % 4 != 0 ==> #[trigger] sub1[k] == sub0[k]);
+    assert(forall|k: int| w * h * 4 <= k < sub0.len() ==> #[trigger] sub1[k] == sub0[k]);
+    assert(forall|k: int| 0 <= k < 3 ==> #[trigger] o1[k] == o0[k]);
+    assert(forall|i: int, j: int| 0 <= i < h && 0 <= j < w ==> sub1[((h - 1 - i) * w + j) * 4] == #[trigger] pl[i][j]);
+    lemma_plane_written(o0, o1, 3, pl, w as int, h as int); }"""),
+              (r"process_plane\(&mut input_cursor, width, height, &mut output\[2\.\.\]\)", 1, """let ghost s2 = input_cursor.rest(); let ghost o2 = output@;
+proof { let sub0 = o1.subrange(2, o1.len() as int); let sub1 = o2.subrange(2, o2.len() as int); let pl = decode_plane(s1, w, h)->Some_0.0;
+    assert(forall|k: int| 0 <= k < sub0.len() && k % 4 != 0 ==> #[trigger] sub1[k] == sub0[k]);
+    assert(forall|k: int| w * h * 4 <= k < sub0.len() ==> #[trigger] sub1[k] == sub0[k]);
+    assert(forall|k: int| 0 <= k < 2 ==> #[trigger] o2[k] == o1[k]);
+    assert(forall|i: int, j: int| 0 <= i < h && 0 <= j < w ==> sub1[((h - 1 - i) * w + j) * 4] == #[trigger] pl[i][j]);
+    lemma_plane_written(o1, o2, 2, pl, w as int, h as int); }"""),
+              (r"process_plane\(&mut input_cursor, width, height, &mut output\[1\.\.\]\)", 1, """let ghost s3 = input_cursor.rest(); let ghost o3 = output@;
+proof { let sub0 = o2.subrange(1, o2.len() as int); let sub1 = o3.subrange(1, o3.len() as int); let pl = decode_plane(s2, w, h)->Some_0.0;
+    assert(forall|k: int| 0 <= k < sub0.len() && k % 4 != 0 ==> #[trigger] sub1[k] == sub0[k]);
+    assert(forall|k: int| w * h * 4 <= k < sub0.len() ==> #[trigger] sub1[k] == sub0[k]);
+    assert(forall|k: int| 0 <= k < 1 ==> #[trigger] o3[k] == o2[k]);
+    assert(forall|i: int, j: int| 0 <= i < h && 0 <= j < w ==> sub1[((h - 1 - i) * w + j) * 4] == #[trigger] pl[i][j]);
+    lemma_plane_written(o2, o3, 1, pl, w as int, h as int); }"""),
+              (r"process_plane\(&mut input_cursor, width, height, &mut output\[0\.\.\]\)", 1, """let ghost o4 = output@;
+proof { let sub0 = o3.subrange(0, o3.len() as int); let sub1 = o4.subrange(0, o4.len() as int); let pl = decode_plane(s3, w, h)->Some_0.0;
+    assert(forall|k: int| 0 <= k < sub0.len() && k % 4 != 0 ==> #[trigger] sub1[k] == sub0[k]);
+    assert(forall|k: int| w * h * 4 <= k < sub0.len() ==> #[trigger] sub1[k] == sub0[k]);
+    assert(forall|k: int| 0 <= k < 0 ==> #[trigger] o4[k] == o3[k]);
+    assert(forall|i: int, j: int| 0 <= i < h && 0 <= j < w ==> sub1[((h - 1 - i) * w + j) * 4] == #[trigger] pl[i][j]);
+    lemma_plane_written(o3, o4, 0, pl, w as int, h as int); }
+proof {
     let pa = decode_plane(s0, w, h)->Some_0.0; let pr = decode_plane(s1, w, h)->Some_0.0;
     let pg = decode_plane(s2, w, h)->Some_0.0; let pb = decode_plane(s3, w, h)->Some_0.0;
     let planes = seq![pb, pg, pr, pa];
     assert(planar_decode(input@, w, h) == Some(planes));
     let img = planar_image(input@, w, h)->Some_0;
     assert(img.len() == n4) by { assert((w * h * 4) as int == n4) by(nonlinear_arith) requires w == width as int, h == height as int, n4 == width as int * height as int * 4; }
-    assert forall|k: int| 0 <= k < n4 implies output@[k] == #[trigger] img[k] by {
-        lemma_pixel_index(w as int, h as int, k);
-        let p = k / 4; let i = h - 1 - p / (w as int); let j = p % (w as int);
-        assert(img[k] == planes[k % 4][i][j]);
-        if k % 4 == 3 { assert(o1.subrange(3, o1.len() as int)[((h - 1 - i) * w + j) * 4] == pa[i][j]); assert(o2[k] == o1[k]); assert(o3[k] == o2[k]); assert(output@[k] == o3[k]); }
-        else if k % 4 == 2 { assert(o2.subrange(2, o2.len() as int)[((h - 1 - i) * w + j) * 4] == pr[i][j]); assert(o3[k] == o2[k]); assert(output@[k] == o3[k]); }
-        else if k % 4 == 1 { assert(o3.subrange(1, o3.len() as int)[((h - 1 - i) * w + j) * 4] == pg[i][j]); assert(output@[k] == o3[k]); }
-        else { assert(output@.subrange(0, output@.len() as int)[((h - 1 - i) * w + j) * 4] == pb[i][j]); }
-    }
+    lemma_four_planes(o0, o1, o2, o3, o4, pa, pr, pg, pb, w as int, h as int);
     assert(output@.take(n4) =~= img);
-    assert forall|k: int| n4 <= k < o0.len() implies #[trigger] output@[k] == o0[k] by {
-        assert(o1[k] == o0[k]); assert(o2[k] == o1[k]); assert(o3[k] == o2[k]); assert(output@[k] == o3[k]);
-    }
 }""")]),
     RLE16,
     Fn(RLE, "rgb565torgb32", mod="rle", props=["C08", "C09"], ret="result",
@@ -386,6 +446,7 @@ proof { assert(s0 =~= input@.skip(1)); }""", "before"),
     Fn(EVT, "decompress", impl=r"BitmapEvent", mod="event", props=["C08", "C09"], nloops=4,
        ensures=[("C08", "exact-size", "r is Ok ==> r->Ok_0@.len() == self.width as int * self.height as int * 4"),
                 ("C09", "raw32-top-down", "r is Ok && self.bpp == 32 && !self.is_compress ==> self.data@.len() == self.width as int * self.height as int * 4 && forall|k: int| 0 <= k < self.width as int * self.height as int * 4 ==> #[trigger] r->Ok_0@[k] == self.data@[flip32(k, self.width as int, self.height as int)]"),
+                ("C09", "planar32-exact", "r is Ok && self.bpp == 32 && self.is_compress && self.width > 0 && self.height > 0 ==> planar_image(self.data@, self.width as nat, self.height as nat) == Some(r->Ok_0@)"),
                 ("C09", "raw16-top-down-widened", "r is Ok && self.bpp == 16 && !self.is_compress ==> forall|k: int| 0 <= k < self.width as int * self.height as int * 4 ==> #[trigger] r->Ok_0@[k] == widen565(raw16(self.data@, self.width as int, self.height as int, k / 4))[k % 4]"),
                 ("C08", "unsupported-depth", "self.bpp != 16 && self.bpp != 32 ==> r is Err")],
        pre="proof { lemma_u16_dims(self.width as int, self.height as int); lemma_line(self.width as int, self.height as int); } let ghost w = self.width as int; let ghost h = self.height as int;",
@@ -407,6 +468,7 @@ proof { assert(s0 =~= input@.skip(1)); }""", "before"),
               (r"for j in 0\.\.width", 1, "proof { lemma_rowstart(i as int, w, h); lemma_rowstart(h - i - 1, w, h); }", "before"),
               (r"let src = \(\(height - i - 1\) \* width \+ j\) \* 2;", 1, "proof { lemma_divmod(i as int, w, j as int); }", "before"),
               (r"result\[i \* width \+ j\] = [^\n]*\n\s*\}", 1, "proof { lemma_rowstart(i as int, w, h); }"),
+              (r"Ok\(result\)", 1, "proof { assert(result@.take(size as int) =~= result@); }", "before"),
               (r"Ok\(rgb565torgb32\(", 1, "proof { lemma_line(w, h); }", "before"),
               ]),
 ], uses={"event": ["use super::rle::*;"]})
